@@ -351,7 +351,61 @@ def rule_views(run):
     views.run_rule(run, "F-VIEW")   # resize of a std.Ref view slices a slice: offsets must accumulate
 
 
-RULES = [rule_format, rule_ctor, rule_ctor_abs, rule_round, rule_sat, rule_siblings, rule_template_arg, rule_replacements, rule_castmatrix, rule_choose_first, rule_views]
+def rule_template_cache(run):
+    run.begin(
+        "C19.template",
+        "std.Template specialisations are cached per (template class, argument): SFixed[l:r] and UFixed[l:r] are different "
+        "classes whatever is created first; the same (class, argument) yields the same class (abstract evaluation of the "
+        "_TemplateMeta cache methods)",
+        floor=5,
+    )
+    from ..absint import Interp, Reject
+    tm = run.idx.mod("cohdl/std/_template.py")
+
+    class _Meta:
+        def __init__(self):
+            self.instances = {}
+
+    prims = {"__setattr__": lambda o, k, v: setattr(o, k, v)}
+
+    def call(name, meta, *a):
+        return Interp(tm, dict(prims)).call_function(f"_TemplateMeta.{name}", meta, *a)
+
+    f = tm.func("_TemplateMeta.add_instance")
+    try:
+        m = _Meta()
+        call("add_instance", m, "SFixed", "3:-2", "S[3:-2]")
+        r1 = call("instance_exists", m, "UFixed", "3:-2")
+        r2 = call("instance_exists", m, "SFixed", "3:-2")
+        r3 = call("instance_exists", m, "SFixed", "3:-1")
+        call("add_instance", m, "UFixed", "3:-2", "U[3:-2]")
+        g1 = call("get_instance", m, "SFixed", "3:-2")
+        g2 = call("get_instance", m, "UFixed", "3:-2")
+    except Reject as e:
+        r1 = r2 = r3 = g1 = g2 = f"rejected: {e}"
+    run.ob(r1 is False, "_TemplateMeta.instance_exists", file=tm.rel, line=f.node.lineno, detail="other-class-same-arg", expected="False (UFixed[3:-2] does not exist because SFixed[3:-2] does)", found=str(r1))
+    run.ob(r2 is True, "_TemplateMeta.instance_exists", file=tm.rel, line=f.node.lineno, detail="same-class-same-arg", expected="True", found=str(r2))
+    run.ob(r3 is False, "_TemplateMeta.instance_exists", file=tm.rel, line=f.node.lineno, detail="same-class-other-arg", expected="False", found=str(r3))
+    run.ob(g1 == "S[3:-2]", "_TemplateMeta.get_instance", file=tm.rel, line=f.node.lineno, detail="get-first", expected="S[3:-2]", found=str(g1))
+    run.ob(g2 == "U[3:-2]", "_TemplateMeta.get_instance", file=tm.rel, line=f.node.lineno, detail="get-second", expected="U[3:-2]", found=str(g2))
+    # the specialising __class_getitem__ passes its own class as the first key component
+    cg = tm.func("class_getitem_specialize")
+    ok = P.has(cg.node, "meta.instance_exists(cls, template_arg)") and P.has(cg.node, "meta.get_instance(cls, template_arg)")
+    adds = [c for c in ast.walk(cg.node) if isinstance(c, ast.Call) and isinstance(c.func, ast.Attribute) and c.func.attr == "add_instance"]
+    ok = ok and len(adds) >= 1 and all(dotted(c.args[0]) == "cls" for c in adds)
+    run.ob(ok, "class_getitem_specialize", file=tm.rel, line=cg.node.lineno, detail="keyed-by-class", expected="instance_exists / get_instance / add_instance are called with (cls, template_arg)", found="ok" if ok else "changed")
+    # each Template[ArgType] declaration owns a fresh meta object (a shared one would merge the caches of different templates)
+    decl = [q for q in tm.functions if q.endswith("Template.__class_getitem__")]
+    if decl:
+        d = tm.functions[decl[0]]
+        metas = [c for c in ast.walk(d.node) if isinstance(c, ast.Call) and dotted(c.func) == "_TemplateMeta"]
+        memo = [x for x in ast.walk(d.node) if isinstance(x, ast.Subscript) and isinstance(x.ctx, ast.Store)]
+        ok = len(metas) >= 1 and not memo
+        run.ob(ok, "Template.__class_getitem__", file=tm.rel, line=d.node.lineno, detail="fresh-declaration", expected="every class statement gets its own declaration type and meta object (no memo table)", found="ok" if ok else f"{len(memo)} store(s) into a memo table")
+    run.end()
+
+
+RULES = [rule_format, rule_ctor, rule_ctor_abs, rule_round, rule_sat, rule_siblings, rule_template_arg, rule_replacements, rule_castmatrix, rule_choose_first, rule_views, rule_template_cache]
 LEVEL = "other"
 EXPLANATION = (
     "Fixed-point exactness is decided for the format algebra: + - * of both classes are interpreted abstractly over a "
